@@ -43,24 +43,33 @@ theorem mem_specOK (v : Hdr → Hdr → Bool) (ops : List Op) (hw : AllWf ops) :
       rw [runOps_cons]
       simp [ih (fun o ho => hw o (List.mem_cons_of_mem _ ho))]
 
-/-- REDB STORE: the same, as long as no unvalidated header is ever stored (`ValidRun`; the redb
-    store re-validates on every read).  Atomicity of write transactions is built into the model
-    (`RedbStore.writeTx`). -/
-theorem redb_conforms (v : Hdr → Hdr → Bool) (ops : List Op) (hw : AllWf ops)
+/-- the FULL statement of C19 for the redb store and for the agreement of the two backends:
+    no precondition on the headers.  Both are FALSE of the code (`redb_conforms_full_false`,
+    `stores_agree_full_false`; open finding `C19/redb/unvalidated-header-stored`). -/
+def RedbConformsFull : Prop := ∀ (v : Hdr → Hdr → Bool) (ops : List Op), AllWf ops →
+  (runOps (RedbStore.step v) RedbStore.new ops).2 = (runOps (AbsStore.step v) init ops).2
+def StoresAgreeFull : Prop := ∀ (v : Hdr → Hdr → Bool) (ops : List Op), AllWf ops →
+  (runOps (MemStore.step v) MemStore.new ops).2 = (runOps (RedbStore.step v) RedbStore.new ops).2
+
+/-- REDB STORE, PARTIAL: the same, as long as no unvalidated header is ever stored (`ValidRun`;
+    the redb store re-validates on every read, `Store::insert` does not validate).  Without the
+    hypothesis the statement fails: `stores_disagree_counterexample`. -/
+theorem redb_conforms_partial (v : Hdr → Hdr → Bool) (ops : List Op) (hw : AllWf ops)
     (hv : ValidRun v init ops) :
     (runOps (RedbStore.step v) RedbStore.new ops).2 = (runOps (AbsStore.step v) init ops).2 :=
   (redb_run_sim v ops hw _ _ rr_init absInv_init hv).1
 
-/-- in particular when every header handed to `insert` is validated -/
-theorem redb_conforms_validated (v : Hdr → Hdr → Bool) (ops : List Op) (hw : AllWf ops)
+/-- PARTIAL: in particular when every header handed to `insert` is validated -/
+theorem redb_conforms_validated_partial (v : Hdr → Hdr → Bool) (ops : List Op) (hw : AllWf ops)
     (hv : AllValidated ops) :
     (runOps (RedbStore.step v) RedbStore.new ops).2 = (runOps (AbsStore.step v) init ops).2 :=
-  redb_conforms v ops hw (validRun_of_validated v ops hv _ storedValid_init)
+  redb_conforms_partial v ops hw (validRun_of_validated v ops hv _ storedValid_init)
 
-/-- the two backends answer every history identically -/
-theorem stores_agree (v : Hdr → Hdr → Bool) (ops : List Op) (hw : AllWf ops) (hv : ValidRun v init ops) :
+/-- PARTIAL: the two backends answer every history in which only validated headers get stored
+    identically -/
+theorem stores_agree_partial (v : Hdr → Hdr → Bool) (ops : List Op) (hw : AllWf ops) (hv : ValidRun v init ops) :
     (runOps (MemStore.step v) MemStore.new ops).2 = (runOps (RedbStore.step v) RedbStore.new ops).2 := by
-  rw [mem_conforms v ops hw, redb_conforms v ops hw hv]
+  rw [mem_conforms v ops hw, redb_conforms_partial v ops hw hv]
 
 /-- the abstract store keeps the invariants the property names along every history: sampled ⊆
     stored, pruned ∩ stored = ∅, both indexes single-valued, no height 0, metadata only for
@@ -80,8 +89,8 @@ theorem mem_sampled_within_stored_pruned_disjoint (v : Hdr → Hdr → Bool) (op
   · have := hi.pruned h ((r.memP h).1 hp)
     rw [(r.memH h).1 hh] at this; cases this
 
-/-- … and the range table of the redb store -/
-theorem redb_sampled_within_stored_pruned_disjoint (v : Hdr → Hdr → Bool) (ops : List Op) (hw : AllWf ops)
+/-- PARTIAL (needs `ValidRun`): … and the range table of the redb store -/
+theorem redb_sampled_within_stored_pruned_disjoint_partial (v : Hdr → Hdr → Bool) (ops : List Op) (hw : AllWf ops)
     (hv : ValidRun v init ops) :
     let t := (runOps (RedbStore.step v) RedbStore.new ops).1
     (∀ h, Ranges.mem (rawRanges t .sampled) h → Ranges.mem (rawRanges t .header) h) ∧
@@ -117,6 +126,42 @@ theorem meta_accumulates (a : AbsStore) (h : Nat) (cids : List Cid) (hs : a.stor
       cases h0
       exact (mem_appendDedup _ _ c).2 (Or.inl hc)
 
+/-- the same on the in-memory store after ANY history: if `update_sampling_metadata(h, cids)`
+    succeeds, `get_sampling_metadata(h)` afterwards returns a list that contains every new CID and
+    every CID it returned before -/
+theorem mem_meta_accumulates (v : Hdr → Hdr → Bool) (ops : List Op) (hw : AllWf ops) (h : Nat) (cids : List Cid)
+    (hh : h ≤ U64_MAX) :
+    let m := (runOps (MemStore.step v) MemStore.new ops).1
+    (MemStore.step v m (.updMeta h cids)).2 = .ok .unit →
+    ∃ l, (MemStore.step v (MemStore.step v m (.updMeta h cids)).1 (.getMeta h)).2 = .ok (.md (some l)) ∧
+      (∀ c ∈ cids, c ∈ l) ∧
+      ∀ l0, (MemStore.step v m (.getMeta h)).2 = .ok (.md (some l0)) → ∀ c ∈ l0, c ∈ l := by
+  intro m hok
+  obtain ⟨_, r, hi⟩ := mem_run_sim v ops hw _ _ rm_init absInv_init
+  have wf1 : (Op.updMeta h cids).wf = true := by simp [Op.wf, hh]
+  obtain ⟨e1, r1, _⟩ := mem_step_sim r hi v (.updMeta h cids) wf1
+  have hi1 := abs_step_inv v _ (.updMeta h cids) hi wf1
+  obtain ⟨e2, _, _⟩ := mem_step_sim r1 hi1 v (.getMeta h) rfl
+  obtain ⟨e0, _, _⟩ := mem_step_sim r hi v (.getMeta h) rfl
+  generalize (runOps (AbsStore.step v) init ops).1 = a at *
+  rw [e1] at hok
+  have hs : a.stored h = true := by
+    cases hst : a.stored h with
+    | true => rfl
+    | false => simp [AbsStore.step, AbsStore.updateMeta, hst] at hok
+  obtain ⟨l, hl, _, c1, c2⟩ := meta_accumulates a h cids hs
+  refine ⟨l, ?_, c1, ?_⟩
+  · rw [e2]
+    have hs' : (a.updateMeta h cids).1.stored h = true := by
+      unfold AbsStore.stored AbsStore.atHeight
+      rw [updateMeta_hdrs]; exact hs
+    simp only [AbsStore.step, hs', if_true, hl]
+  · intro l0 h0
+    rw [e0] at h0
+    simp only [AbsStore.step, hs, if_true] at h0
+    injection h0 with h0; injection h0 with h0
+    exact c2 l0 h0
+
 /-- the abstract store never answers `panic`, hence (by conformance) neither model reaches a
     `debug_assert!` / `expect` / `panic!` / arithmetic overflow of the store code in any history -/
 theorem abs_never_panics (v : Hdr → Hdr → Bool) (a : AbsStore) (op : Op) :
@@ -135,6 +180,44 @@ theorem mem_never_panics (v : Hdr → Hdr → Bool) (ops : List Op) (hw : AllWf 
     rcases List.mem_cons.1 hr with e | e
     · rw [e]; exact abs_never_panics v a op
     · exact ih (fun o ho => hw o (List.mem_cons_of_mem _ ho)) _ r e
+
+/-! ### the open finding: an unvalidated header accepted by `insert`
+
+A single header is internally verified (`From<ExtendedHeader>`), an empty store accepts any valid
+range: both stores take it.  The redb store then cannot read it back (decoding validates), cannot
+remove it, and refuses the honest chain below it; the in-memory store behaves like the abstract
+store throughout. -/
+
+def cexV : Hdr → Hdr → Bool := fun a b => decide (b.id = a.id + 1)
+/-- header 3 does not pass `validate` (e.g. a copy of a header claiming another height) -/
+def cexOps : List Op :=
+  [ .insert [⟨3, 5, 100, false⟩], .getByHeight 5, .hasAt 5, .remove 5,
+    .insert [⟨0, 1, 100, true⟩, ⟨1, 2, 101, true⟩, ⟨2, 3, 102, true⟩] ]
+
+/-- COUNTEREXAMPLE to the full statement: the two store models (transcriptions of the real
+    stores, confirmed by `corpus/C19/unvalidated-header-in-redb.ops` against the real code)
+    answer this 5-call history differently -/
+theorem stores_disagree_counterexample :
+    AllWf cexOps ∧
+    (runOps (MemStore.step cexV) MemStore.new cexOps).2 =
+      [.ok .unit, .ok (.hdr ⟨3, 5, 100, false⟩), .ok (.bool true), .ok .unit, .ok .unit] ∧
+    (runOps (RedbStore.step cexV) RedbStore.new cexOps).2 =
+      [.ok .unit, .err .storedDataError, .ok (.bool true), .err .storedDataError,
+       .err (.constraintsNotMet .noAdjacent)] := by
+  refine ⟨by unfold AllWf; decide, by decide, by decide⟩
+
+theorem stores_agree_full_false : ¬ StoresAgreeFull := by
+  intro h
+  have := h cexV cexOps stores_disagree_counterexample.1
+  rw [stores_disagree_counterexample.2.1, stores_disagree_counterexample.2.2] at this
+  exact absurd this (by decide)
+
+theorem redb_conforms_full_false : ¬ RedbConformsFull := by
+  intro h
+  have h1 := h cexV cexOps stores_disagree_counterexample.1
+  have h2 := mem_conforms cexV cexOps stores_disagree_counterexample.1
+  rw [← h2, stores_disagree_counterexample.2.1, stores_disagree_counterexample.2.2] at h1
+  exact absurd h1 (by decide)
 
 /-! ### non-vacuity: a concrete history with a fork, a gap fill, rejected batches of every kind,
     a removal, a re-insertion, sampling marks and metadata -/
